@@ -16,6 +16,7 @@ from typing import Any, Callable, Dict, List, Optional
 from taskiq import AckableMessage, AsyncBroker, TaskiqMiddleware
 from taskiq.abc.result_backend import AsyncResultBackend
 from taskiq.acks import AcknowledgeType
+from taskiq.exceptions import BrokerError  # noqa: E402
 from taskiq.exceptions import NoResultError
 from taskiq.kicker import AsyncKicker
 from taskiq.receiver import Receiver
@@ -94,6 +95,20 @@ class Trace:
         self.ev.append([round(self.loop.time(), 9), kind, msg, kw])
 
 
+class QueueUnavailableError(BrokerError):
+    """what a third-party broker raises when it cannot send (its own subclass of taskiq's BrokerError)."""
+
+
+def kick_failure(kind: str) -> BaseException:
+    import taskiq.exceptions as te
+
+    if kind == "QueueUnavailableError":
+        return QueueUnavailableError()
+    if hasattr(te, kind):
+        return getattr(te, kind)()
+    return {"RuntimeError": RuntimeError, "ConnectionError": ConnectionError, "TimeoutError": TimeoutError, "KeyError": KeyError}[kind]("broker down")
+
+
 class ScriptedBroker(AsyncBroker):
     """listen() yields message i at its scripted virtual instant; kick() records."""
 
@@ -105,18 +120,28 @@ class ScriptedBroker(AsyncBroker):
         self.sent: List[Any] = []
         self.kick_fail: set = set()
         self.kicks = 0
+        self.kick_exc = "RuntimeError"
+        self.pos = 0
+        self.fault_at: Any = None
 
     async def kick(self, message: Any) -> None:
         k = self.kicks
         self.kicks += 1
         self.tr.add("kick", msg_index(message.task_id), n=k)
         if k in self.kick_fail:
-            raise RuntimeError("broker down")
+            raise kick_failure(self.kick_exc)
         self.sent.append(message)
 
     async def listen(self):  # type: ignore[override]
         loop = asyncio.get_running_loop()
-        for i, (at, data, ackkind) in enumerate(self.script):
+        # a second listen() (the same worker subscribing again) goes on with the messages not handed over yet
+        while self.pos < len(self.script):
+            i = self.pos
+            at, data, ackkind = self.script[i]
+            if self.fault_at is not None and i == self.fault_at:
+                self.fault_at = None
+                self.tr.add("stream_fault")
+                raise ConnectionError("connection to the broker lost")     # the subscription breaks; listen() fails
             d = at - loop.time()
             if d > 0:
                 await asyncio.sleep(d)
@@ -158,10 +183,16 @@ class ScriptedBroker(AsyncBroker):
                         raise ConnectionResetError("ack failed")
 
                 item = AckableMessage(data=data, ack=ack)
+            self.pos = i + 1
             self.tr.add("take", i)
             yield item
         if not self.ends:
             await asyncio.Event().wait()
+
+
+# what a result backend may raise: anything, including the connection / timeout errors of a network client
+SAVE_EXC = {"RuntimeError": RuntimeError, "ConnectionError": ConnectionError, "TimeoutError": TimeoutError, "OSError": OSError,
+            "ConnectionResetError": ConnectionResetError, "ValueError": ValueError}
 
 
 class RecordingBackend(AsyncResultBackend):
@@ -172,6 +203,8 @@ class RecordingBackend(AsyncResultBackend):
         self.lat = latency
         self.store: Dict[str, Any] = {}
         self.results: List[Any] = []   # (task_id, TaskiqResult) in call order
+        self.fail_ids: set = set()     # message indices whose result can NEVER be saved (persistent failure, every attempt)
+        self.fail_exc = "RuntimeError"
 
     async def set_result(self, task_id: str, result: Any) -> None:
         k = self.n
@@ -181,9 +214,9 @@ class RecordingBackend(AsyncResultBackend):
                     err=type(result.error).__name__ if result.error is not None else None)
         if self.lat:
             await asyncio.sleep(self.lat)
-        if k in self.fail:
+        if k in self.fail or msg_index(task_id) in self.fail_ids:
             self.tr.add("save_failed", msg_index(task_id))
-            raise RuntimeError("backend down")
+            raise SAVE_EXC.get(self.fail_exc, RuntimeError)("backend down")
         self.store[task_id] = result
         self.tr.add("save_end", msg_index(task_id))
 
@@ -406,7 +439,7 @@ def build_script(broker: ScriptedBroker, sc: Dict[str, Any]) -> List[Any]:
         # they travel as plain JSON values without a type entry
         m.labels.update(late)
         if kind == "unknown":
-            m.task_name = "no.such.task"
+            m.task_name = sp.get("uname") or "no.such.task"
         data = broker.formatter.dumps(m).message
         if kind == "bad":
             data = bad_payload(sp.get("bad") or {}, data)
@@ -432,8 +465,12 @@ def run_worker(sc: Dict[str, Any], register: Optional[Callable[..., None]] = Non
     b.ends = bool(sc.get("ends", False))
     b.is_worker_process = True   # what `taskiq worker` sets before it starts the receiver
     b.kick_fail = set(sc.get("fail_kicks", ()))
+    b.fault_at = sc.get("stream_fault")
     rb = RecordingBackend(tr, sc.get("fail_saves", ()), sc.get("save_latency", 0.0))
-    b.result_backend = rb
+    rb.fail_ids = set(sc.get("fail_save_ids", ()))
+    rb.fail_exc = sc.get("save_exc", "RuntimeError")
+    if not sc.get("backend_late"):
+        b.result_backend = rb
     (register or register_timing_tasks)(b, tr, sc)
     mws = build_middlewares(sc.get("mws", []), tr)
     if mws:
@@ -453,6 +490,10 @@ def run_worker(sc: Dict[str, Any], register: Optional[Callable[..., None]] = Non
         run_startup=False,
     )
     res: Dict[str, Any] = {"returned": False, "listen_exc": None, "deadlock": False}
+    if sc.get("backend_late"):
+        # the result backend is installed only after the receiver object exists (a worker start-up handler does that,
+        # and so does InMemoryBroker().with_result_backend(...)): results go to the backend the broker has when they are stored
+        b.result_backend = rb
     if late is not None:
         late()      # registered after the receiver exists
 
@@ -476,6 +517,19 @@ def run_worker(sc: Dict[str, Any], register: Optional[Callable[..., None]] = Non
                 res["listen_exc"] = repr(lt.exception())
         else:
             lt.cancel()
+        if sc.get("relisten") and res["returned"]:
+            # the broker connection broke and listen() failed while tasks were running; the SAME Receiver object is asked to
+            # listen again: it is still one worker, its limits keep applying to everything it has in hand
+            res["first_listen_exc"], res["listen_exc"] = res["listen_exc"], None
+            tr.add("relisten")
+            lt2 = asyncio.ensure_future(r.listen(asyncio.Event()))
+            done2, _ = await asyncio.wait({lt2}, timeout=max(1.0, sc.get("horizon", 100.0) - loop.time()))
+            if lt2 in done2:
+                tr.add("return")
+                if not lt2.cancelled() and lt2.exception() is not None:
+                    res["listen_exc"] = repr(lt2.exception())
+            else:
+                lt2.cancel()
         if sc.get("drain", 0.0):
             await asyncio.sleep(sc["drain"])
 
